@@ -36,6 +36,7 @@ class Vec:
 
 
 SIDE_ROLE = {0: 'rows', 1: 'cols'}
+FLOAT_TYPES = {'float', 'complex', 'np.float64', 'np.complex128', 'np.double', 'np.cdouble', 'np.float32', 'np.complex64'}
 
 
 class BlockAnalysis:
@@ -58,6 +59,7 @@ class BlockAnalysis:
         self.counts = {'cond_perm': 0, 'unperm': 0, 'block_store': 0, 'dummy': 0}
         self.sub = {}           # names of per-block factors: name -> role index
         self.ret = None
+        self.inexact = set()    # names of arrays known to have a floating / complex dtype
 
     # ------------------------------------------------------------------
     def ok(self, kind, node, cond, text):
@@ -101,6 +103,14 @@ class BlockAnalysis:
             if pmatch(f'{self.A}.shape[0] > 0', s.test) is not None:
                 self.block(s.body)
                 return
+            b = pmatch('not np.issubdtype(__x.dtype, np.inexact)', s.test)
+            if b is not None and len(s.body) == 1 and not s.orelse and isinstance(s.body[0], ast.Assign):
+                a = s.body[0]
+                c = pmatch(f'{b["__x"]}.astype(__t)', a.value)
+                if norm(a.targets[0]) == b['__x'] and c is not None and c['__t'] in FLOAT_TYPES:
+                    # integer input is promoted; on the other path the dtype is inexact already
+                    self.inexact.add(b['__x'])
+                    return
             raise AnalysisError(f'{self.fi.qual}: conditional `{norm(s.test)[:60]}` is not a recognised idiom')
         if isinstance(s, ast.For):
             self.loop(s)
@@ -193,6 +203,15 @@ class BlockAnalysis:
                 else:
                     raise AnalysisError(f'{self.fi.qual}: allocation `{norm(s)[:70]}` has an unrecognised extent {d}')
             if len(roles) == 2:
+                dt = [k.value for k in v.keywords if k.arg == 'dtype']
+                dtx = norm(dt[0]) if dt else 'float'
+                good = dtx in FLOAT_TYPES or (dtx.endswith('.dtype') and dtx[:-6] in self.inexact) or \
+                    (dtx.startswith('np.result_type(') and any(t in dtx for t in ('float', 'complex'))) or \
+                    (dtx.startswith('np.promote_types(') and any(t in dtx for t in ('float', 'complex')))
+                is_dummy = (dims.count('1') == 1 and self.maxdim not in dims)
+                if not is_dummy:
+                    self.ok('dtype', s, good, f'`{norm(s)[:80]}`: the factor array receives floating-point block factors and is '
+                            f'allocated with an inexact dtype (dtype {dtx}; integer input must have been promoted before)')
                 m = Mat(roles, [None if r != 'interm' else 'I' for r in roles], origin=s)
                 m.dummy = (dims.count('1') == 1 and self.maxdim not in dims)
                 env[name] = m
